@@ -320,7 +320,7 @@ func genC12(c *Ctx) {
 	for _, f := range c12SourceChecks() {
 		c.Fail("c12.source", none, f.key, f.what)
 	}
-	r8 := c12R8Start(c) // round 8: greeted connections, lock analysis, ping registry (c12_r8.go)
+	r8 := c12R8Start(c) // round 8: greeted connections, lock analysis (c12_r8.go)
 	defer c12R8Finish(c, r8)
 	// the wall-clock scenarios of the silence rule (12 s each) overlap everything else
 	// thorough: + the pinger scenario with a FIN (the pinger needs two periods to
